@@ -2,6 +2,8 @@
 //! arguments are drawn from the *model* state so that most operations are meaningful, with a
 //! profile-dependent share of deliberately invalid ones.
 
+use cosmian_crypto_core::bytes_ser_de::Serializable;
+use crate::wire;
 use crate::events::*;
 use crate::model::*;
 use crate::rng::Rng;
@@ -401,6 +403,10 @@ pub struct Gen {
     pub thorough: bool,
     /// Events queued by a burst (returned before anything new is drawn).
     pub pending: Vec<Ev>,
+    /// After a burst of re-keyings in the C08 profile: (user, stage) of a scripted sequence that
+    /// refreshes that user's key keeping old secrets, then tampers with the oldest secrets of
+    /// its longest chain.
+    pub tail_forge: Option<(usize, u8)>,
 }
 
 impl Gen {
@@ -411,6 +417,7 @@ impl Gen {
             name_ctr: 0,
             thorough: false,
             pending: vec![],
+            tail_forge: None,
         }
     }
 
@@ -450,7 +457,8 @@ impl Gen {
         let mut s = MStruct::default();
         let mut names: Vec<&str> = DIM_NAMES.to_vec();
         rng.shuffle(&mut names);
-        let alias = format!("{}_{}", names[0], names[1]);
+        // the name of the third dimension is the two first ones joined (in lexical order)
+        let alias = format!("{}_{}", names[0].min(names[1]), names[0].max(names[1]));
         for di in 0..self.sw.n_dims {
             let hierarchy = rng.pct(self.sw.hierarchy_pct);
             let dname = if di == 2 && self.sw.alias_names { alias.clone() } else { names[di].to_string() };
@@ -578,6 +586,11 @@ impl Gen {
         if rng.pct(self.sw.invalid_pct) {
             { let p = invalid_pol(rng, s, false); return arg(rng, p); }
         }
+        if rng.pct(35) {
+            if let Some(p) = self.alias_pol(rng, s) {
+                return arg(rng, p);
+            }
+        }
         let p = gen_pol(rng, s, self.sw.pol_depth);
         arg(rng, p)
     }
@@ -628,8 +641,26 @@ impl Gen {
         arg(rng, p)
     }
 
+    /// `(X::a && Y::b) || X_Y::c` when the structure has dimensions X, Y and X_Y.
+    fn alias_pol(&self, rng: &mut Rng, s: &MStruct) -> Option<Pol> {
+        if !self.sw.alias_names || s.dims.len() < 3 {
+            return None;
+        }
+        let pick = |rng: &mut Rng, d: &MDim| -> Option<Pol> {
+            let ok: Vec<&MAttr> = d.attrs.iter().filter(|a| addressable(a)).collect();
+            rng.pick_opt(&ok).map(|a| Pol::Term(d.name.clone(), a.name.clone()))
+        };
+        let (a, b, c) = (pick(rng, &s.dims[0])?, pick(rng, &s.dims[1])?, pick(rng, &s.dims[2])?);
+        Some(Pol::Or(Box::new(Pol::And(Box::new(a), Box::new(b))), Box::new(c)))
+    }
+
     fn rotation_pol(&mut self, rng: &mut Rng, w: &World) -> PolArg {
         let s = &w.auth.m.structure;
+        if rng.pct(35) {
+            if let Some(p) = self.alias_pol(rng, s) {
+                return arg(rng, p);
+            }
+        }
         if rng.pct(self.sw.invalid_pct) {
             { let p = invalid_pol(rng, s, false); return arg(rng, p); }
         }
@@ -696,6 +727,32 @@ impl Gen {
     pub fn step(&mut self, rng: &mut Rng, w: &World) -> Ev {
         if let Some(ev) = self.pending.pop() {
             return ev;
+        }
+        if let Some((u, stage)) = self.tail_forge {
+            self.tail_forge = if stage >= 14 { None } else { Some((u, stage + 1)) };
+            let deliver = Ev::Deliver { reply_delay: 0, reply_dup: false, reply_drop: false };
+            return match stage {
+                0 => Ev::RequestRefresh { user: u, keep: true, delay: 0, dup: false, tamper: None },
+                1..=3 => deliver,
+                s if s % 2 == 0 => {
+                    // the longest chain of the key as the user holds it now
+                    let i = w.users.get(u).and_then(|x| x.usk.as_ref()).and_then(|(k, _)| k.serialize().ok()).and_then(|b| {
+                        let p = wire::parse_usk(&b).ok()?;
+                        (0..p.rights.len()).max_by_key(|i| p.rights[*i].secrets.len())
+                    });
+                    let i = i.unwrap_or(0);
+                    let k = 50_000 + rng.below(3);
+                    let op = match rng.below(5) {
+                        0 => UskOp::DropSecret { i, k },
+                        1 => UskOp::DupSecret { i, k },
+                        2 => UskOp::SwapSecrets { i, k: 50_001 + rng.below(3) },
+                        3 => UskOp::SwapSecretsAcross { i, k, j: i, l: Self::chain_k_static(rng) },
+                        _ => UskOp::SplitChain { i, k },
+                    };
+                    Ev::RequestRefresh { user: u, keep: rng.pct(50), delay: 0, dup: false, tamper: Some(op) }
+                }
+                _ => deliver,
+            };
         }
         for _ in 0..8 {
             let op = rng.weighted(&self.sw.w);
@@ -781,10 +838,20 @@ impl Gen {
                     let n = match rng.below(10) {
                         0 if matches!(self.prop.as_str(), "C18" | "C08" | "C04") => rng.range(515, 525),
                         0 | 1 | 2 => rng.range(257, 270),
+                        3 | 4 | 5 if self.prop == "C08" => rng.range(257, 262),
                         _ => rng.range(128, 140),
                     };
                     for _ in 0..n {
                         self.pending.push(ev.clone());
+                    }
+                    if self.prop == "C08" && !w.users.is_empty() {
+                        // a key holding every right about to be rotated, then (once the burst is
+                        // over) a refresh that keeps its old secrets and tampering of the tail
+                        if let Ev::Rekey { pol } = &ev {
+                            let u = rng.below(w.users.len());
+                            self.tail_forge = Some((u, 0));
+                            return Some(Ev::Keygen { user: u, pol: pol.clone() });
+                        }
                     }
                 } else if self.sw.bursts && rng.pct(30) {
                     // the same policy re-keyed several times in a row: long chains; now and then
@@ -995,6 +1062,16 @@ impl Gen {
         })
     }
 
+    /// Position of a secret in a chain: near the newest, near the oldest (50 000 + i counts from
+    /// the end, see faults::chain_index), or anywhere.
+    fn chain_k_static(rng: &mut Rng) -> usize {
+        match rng.below(4) {
+            0 => rng.below(3),
+            1 => 50_000 + rng.below(3),
+            _ => rng.below(40_000),
+        }
+    }
+
     pub fn usk_op(&mut self, rng: &mut Rng, w: &World, user: usize) -> UskOp {
         if self.prop == "C17" && rng.pct(25) {
             return UskOp::IdFrom { other_user: rng.below(w.users.len()) };
@@ -1009,7 +1086,7 @@ impl Gen {
             24 | 25 => UskOp::SplitChain { i: rng.below(n_rights), k: rng.below(3) },
             26 | 27 => UskOp::AddEmptyRight { other_user: other, j: rng.below(8), raw: { let n = rng.range(0, 3); rng.bytes(n) } },
             28 | 29 => UskOp::MoveSecretToEnd { from: rng.below(n_rights), to: rng.below(n_rights) },
-            30 | 31 => UskOp::SwapSecretsAcross { i: rng.below(n_rights), k: if rng.pct(50) { rng.below(3) } else { rng.below(100_000) }, j: rng.below(n_rights), l: if rng.pct(50) { rng.below(3) } else { rng.below(100_000) } },
+            30 | 31 => UskOp::SwapSecretsAcross { i: rng.below(n_rights), k: Self::chain_k_static(rng), j: rng.below(n_rights), l: Self::chain_k_static(rng) },
             0 | 1 => UskOp::MergeAdjacent { i: rng.below(n_rights) },
             2 => UskOp::SplitName { i: rng.below(n_rights), k: rng.range(1, 3) },
             3 => UskOp::MoveSecret { from: rng.below(n_rights), to: rng.below(n_rights) },
@@ -1017,9 +1094,9 @@ impl Gen {
             5 => UskOp::DupRight { i: rng.below(n_rights) },
             6 => UskOp::DropRight { i: rng.below(n_rights) },
             7 => UskOp::RenameRight { i: rng.below(n_rights), name: { let n = rng.range(0, 3); rng.bytes(n) } },
-            8 => UskOp::DropSecret { i: rng.below(n_rights), k: if rng.pct(50) { rng.below(3) } else { rng.below(100_000) } },
-            9 => UskOp::DupSecret { i: rng.below(n_rights), k: if rng.pct(50) { rng.below(3) } else { rng.below(100_000) } },
-            10 => UskOp::SwapSecrets { i: rng.below(n_rights), k: if rng.pct(50) { rng.below(2) } else { rng.below(100_000) } },
+            8 => UskOp::DropSecret { i: rng.below(n_rights), k: Self::chain_k_static(rng) },
+            9 => UskOp::DupSecret { i: rng.below(n_rights), k: Self::chain_k_static(rng) },
+            10 => UskOp::SwapSecrets { i: rng.below(n_rights), k: Self::chain_k_static(rng) },
             11 | 12 => UskOp::HybridToClassicShift { i: rng.below(n_rights) },
             13 => UskOp::FlipFlavourFlag { i: rng.below(n_rights), k: rng.below(2) },
             14 => UskOp::MarkerIntoName,
